@@ -309,7 +309,8 @@ def build_events(level):
     ev.append(("setslice", 0, 5, ()))
     ev.append(("delslice", 0, 1))
     ev.append(("delslice", 1, 9))
-    for t in ((0,), (3, 0), (13,), (5, 8)):
+    # (11,), (2,), (7,): one letter per memoised view it changes (symbols; a new qubit; a new key)
+    for t in ((0,), (3, 0), (13,), (5, 8), (11,), (2,), (7,)):
         ev.append(("iadd", t))
         ev.append(("radd", t))
         ev.append(("add_ops", t))
@@ -765,11 +766,14 @@ def check_transition(init_i, hist, ev):
     live = INITS[init_i][1]()
     for h in hist:
         live = apply_event(live, h).circ
+    _fp0 = cache_fp(live)
     before_model = model(live)
     before_plain = plain(live)
     before_tags = live.tags
     before_canon = canon(live)
     fresh_src = rebuild(live)
+    if canon(live) != before_canon or cache_fp(live) != _fp0:
+        raise core.HarnessError("the harness's own observations changed the memo/cache state of the replayed circuit")
     # live
     exc_live = None
     try:
@@ -797,6 +801,9 @@ def check_transition(init_i, hist, ev):
         return (Res(ok=True, nontrivial=False, counters={"rejected_calls": 1}), None, False)
     res = ap.circ
     info = ap.info
+    # the state's canonical form (contents + which memos/caches are filled) is taken *before* the oracle's own queries
+    # fill the memos of `res`: successors are replayed without the oracle, so this is the state they really start from
+    after_canon = canon(res)
     w = wellformed(res)
     if w:
         return (core.bad(w, kind="illformed"), None, False)
@@ -840,7 +847,6 @@ def check_transition(init_i, hist, ev):
             new = [opkey(o) for o in info["added"] if pred(o)]
             if not is_interleaving(flat(timeline(model(res), pred)), old, new):
                 return (core.bad(f"order on {q}: not an order-preserving merge", kind="reference_model"), None, False)
-    after_canon = canon(res)
     changed = after_canon != before_canon
     return (Res(ok=True, nontrivial=changed or modelled, counters={}), after_canon, changed)
 
